@@ -41,7 +41,7 @@ def behaviour(bp):
             if len(out[name]) == 1:
                 out[name] = list(out[name].values())[0]
     return out
-QUICK_PROGS = ["arith", "cmp-same-type", "cell", "latch-sr", "entity", "fan-proj"]
+QUICK_PROGS = ["arith", "cmp-same-type", "cell", "latch-sr", "bundle-member-scalar", "fan-proj"]
 
 
 def decode(text, as_json):
